@@ -11,6 +11,8 @@ CLAIMED = {
          'Coq proof over predicates regenerated from the source + exhaustive differential correspondence', 'DESIGN.md 7 C05'),
  'C06': ('proof', 'Theorems over exec of the model for ALL register and memory contents (pointers word-aligned in RAM): explicit final states of PUSHW, CALL, SAVE, RESTORE, RSB; the inverse pairs PUSHW/POPW, JSB|BSBB|BSBH/RSB, CALL/RET, SAVE/RESTORE for every save range restore SP/AP/FP/saved registers and return to the byte after the call site; SP moves by exactly +4/-4/+8/+28; bytes outside the architected words are unchanged (frame). Correspondence on generated balanced nests (depth 6 quick / 24 thorough) and edge-of-RAM single instructions; monitor: balanced nest restores SP, AP, FP, r3-r8 and ends at the expected PC. Not yet proved: the induction over arbitrary nesting derivations (covered by the generated nests).',
          'Coq proof by symbolic execution of the model with a load/store theory of RAM + differential correspondence on generated nests + balance monitor', 'DESIGN.md 7 C06'),
+ 'C07': ('proof', 'Theorems: a step polls the request once, before decode, and takes it exactly when IPL(PSW) < level(request) (level table translated from the source = documented levels); interrupt entry effect (old PCBP stacked on the interrupt stack, PC/PSW/SP saved in the old control block, new ones loaded from the block the vector table names; nothing else written); RETPS effect; interrupt + RETPS restores PC, SP, r0-r10, PCBP, ISP, NZVC, IPL, CM/PM, I for every machine state with aligned disjoint control blocks in RAM (handler block without R and I; blocks with R / I and CALLPS are covered by the differential runs and the transparency monitor, not yet by a theorem); CALLPS/RETPS/ENBVJMP/DISVJMP outside kernel level are refused with no state change.',
+         'Coq proof by symbolic execution of on_interrupt / context switches / RETPS + generated level table + differential correspondence + transparency monitor', 'DESIGN.md 7 C07'),
  'C08': ('proof', 'Payload-polymorphic theorems by induction over all histories: delivered-while-ready ++ pipeline is an in-order subsequence of queued (no invention, duplication, reordering), loss only by flagged overrun / receiver reset / unready read, overrun flag sticky, FIFO refinement, invariant reachable; correspondence on receive-path histories incl. exhaustive short ones and fill x command x refill scenarios; conservation monitor.',
          'Coq proof by induction over port-operation histories (ghost queues) + differential correspondence + monitor', 'DESIGN.md 7 C08'),
  'C09': ('proof', 'Theorems: TxRDY implies empty holding register; gated writes reach the host queue exactly once in order (polled ++ pipeline = written) over all histories without reset-tx/loop-back; poll returns none iff empty; loop-back delivers to own receiver and never to the host; correspondence + monitor.',
